@@ -268,7 +268,7 @@ func spellings(r rune, ctx int, first bool) (forms []string, greedy []bool) {
 	case ctxDouble:
 		mustEscape = mustEscape || r == '"'
 	case ctxClass:
-		mustEscape = mustEscape || r == ']' || r == '-' || (first && r == '^')
+		mustEscape = mustEscape || r == ']' || r == '[' || r == '-' || (first && r == '^')
 	}
 	if !mustEscape && unicode.IsPrint(r) {
 		add(string(r), false)
